@@ -701,16 +701,15 @@ class CategoricalClassification:
             n = Xs_T.shape[1]
             n_flip = int(n * p)
 
+            # rows of label i occupy [label_start[i], label_start[i + 1]) of the label-sorted data
+            label_start = np.concatenate(([0], np.cumsum(label_count)))
+
             for feature in Xs_T:
                 unique_per_label = {}
 
                 for i in range(n_labels):
-                    if i == 0:
-                        unique = np.unique(feature[:label_count[i]])
-                        unique_per_label[label_values[i]] = set(unique)
-                    else:
-                        unique = np.unique(feature[label_count[i - 1]:label_count[i - 1] + label_count[i] - 1])
-                        unique_per_label[label_values[i]] = set(unique)
+                    unique = np.unique(feature[label_start[i]:label_start[i + 1]])
+                    unique_per_label[label_values[i]] = set(unique)
 
                 ixs = np.random.choice(n, n_flip, replace=False)
 
